@@ -36,6 +36,9 @@ Proof.
     rewrite sub_app1 by lia. apply sub_all.
 Qed.
 
+Lemma seg_end0 W l : seg (W ++ l) (lenN W) l.
+Proof. rewrite <- (app_nil_r l) at 1. apply seg_end. Qed.
+
 Lemma seg_nth W off l j : seg W off l -> j < lenN l -> nthN W (off + j) 0 = nthN l j 0.
 Proof.
   intros [H1 H2] Hj. rewrite <- (sub_nth W off (lenN l) j 0) by assumption. now rewrite H2.
@@ -160,15 +163,15 @@ Proof.
       * intros key o Hk. destruct (Hluts _ _ Hk) as [A B]. split; [exact A|].
         rewrite rev_rev_append. now apply seg_app_r.
     + exists vw, (off + bits * two24), (e_len st).
-      rewrite rev_rev_append. repeat split; auto.
-      * rewrite two24_val, two32_val in *. nia.
-      * exists off, (e_len st), bits. repeat split; auto; try lia.
-        -- apply seg_app_r. exact Hseg.
-        -- apply seg_app_r. exact Hseg.
-        -- replace (e_len st - H) with (lenN (rev (e_body st))) by (rewrite lenN_rev; lia).
-           rewrite <- (app_nil_r vw) at 1. rewrite !lenN_app, lenN_rev. rewrite lenN_nil. lia.
-        -- replace (e_len st - H) with (lenN (rev (e_body st))) by (rewrite lenN_rev; lia).
-           rewrite <- (app_nil_r vw) at 2. apply seg_end.
+      rewrite rev_rev_append.
+      split; [reflexivity|]. split; [exact Hvw|]. split; [reflexivity|].
+      split; [rewrite two24_val, two32_val in *; nia|]. split; [exact Hvo|].
+      exists off, (e_len st), bits.
+      split; [exact Hbits|]. split; [reflexivity|]. split; [reflexivity|].
+      split; [exact Hlo|]. split; [exact Hvo|]. split; [exact HoffH|]. split; [lia|]. split.
+      * apply seg_app_r. exact Hseg.
+      * replace (e_len st - H) with (lenN (rev (e_body st))) by (rewrite lenN_rev; lia).
+        apply seg_end0.
   - (* new table *)
     cbv beta iota zeta.
     destruct (N.leb_spec two24 (e_len st)) as [|Hlo]; [discriminate|].
@@ -186,16 +189,350 @@ Proof.
            rewrite EH. apply seg_end.
         -- destruct (Hluts _ _ Hk) as [A B]. split; [exact A|]. now apply seg_app_r.
     + exists (lutw ++ vw), (e_len st + bits * two24), (e_len st + lenN lutw).
-      rewrite Erev. repeat split; auto.
-      * apply Forall_app. now split.
-      * rewrite two24_val, two32_val in *. nia.
-      * exists (e_len st), (e_len st + lenN lutw), bits. repeat split; auto; try lia.
-        -- rewrite EH. rewrite !lenN_app. lia.
-        -- rewrite EH. apply seg_end.
-        -- replace (e_len st + lenN lutw - H) with (lenN (rev (e_body st) ++ lutw))
-             by (rewrite lenN_app, lenN_rev; lia).
-           rewrite !lenN_app. lia.
-        -- replace (e_len st + lenN lutw - H) with (lenN (rev (e_body st) ++ lutw))
-             by (rewrite lenN_app, lenN_rev; lia).
-           rewrite app_assoc. rewrite <- (app_nil_r vw) at 2. apply seg_end.
+      rewrite Erev.
+      split; [reflexivity|]. split; [apply Forall_app; now split|]. split; [reflexivity|].
+      split; [rewrite two24_val, two32_val in *; nia|]. split; [exact Hvo|].
+      exists (e_len st), (e_len st + lenN lutw), bits.
+      split; [exact Hbits|]. split; [reflexivity|]. split; [reflexivity|].
+      split; [exact Hlo|]. split; [exact Hvo|]. split; [lia|]. split; [lia|]. split.
+      * rewrite EH. apply seg_end.
+      * replace (e_len st + lenN lutw - H) with (lenN (rev (e_body st) ++ lutw))
+          by (rewrite lenN_app, lenN_rev; lia).
+        rewrite app_assoc. apply seg_end0.
+Qed.
+
+Lemma enc_vlist_inv dt H vl : forall st st',
+  stinv H st -> Forall (Forall (fun v => v < dt_bound dt)) vl ->
+  enc_vlist dt vl st = Ok st' ->
+  stinv H st' /\
+  exists ext hx,
+    rev (e_body st') = rev (e_body st) ++ ext /\ w32 ext /\
+    rev (e_hdr st') = rev (e_hdr st) ++ hx /\ w32 hx /\ lenN hx = 2 * lenN vl /\
+    forall k, k < lenN vl ->
+      blk_body dt H (rev (e_body st')) (nthN hx (2 * k) 0) (nthN hx (2 * k + 1) 0) (nthN vl k []).
+Proof.
+  induction vl as [|v r IH]; intros st st' Hinv Hb E.
+  - cbn [enc_vlist] in E. inversion E; subst st'. split; [exact Hinv|].
+    exists [], []. rewrite !app_nil_r. repeat split; try constructor.
+    intros k Hk. rewrite lenN_nil in Hk. lia.
+  - cbn [enc_vlist] in E.
+    destruct (enc_block dt v st) as [st1| | | | | |] eqn:E1; try discriminate. cbn [bind] in E.
+    inversion Hb as [|? ? Hv Hr]; subst.
+    destruct (enc_block_step dt H v st st1 Hinv Hv E1)
+      as (Hinv1 & ext1 & h0 & h1 & Eb1 & Hw1 & Eh1 & Hh0 & Hh1 & Hblk1).
+    destruct (IH st1 st' Hinv1 Hr E) as (Hinv' & ext2 & hx2 & Eb2 & Hw2 & Eh2 & Hwh2 & Hl2 & Hblk2).
+    split; [exact Hinv'|].
+    exists (ext1 ++ ext2), (h0 :: h1 :: hx2).
+    split; [rewrite Eb2, Eb1; now rewrite app_assoc|].
+    split; [apply Forall_app; now split|].
+    split.
+    { rewrite Eh2, Eh1. cbn [rev]. rewrite <- !app_assoc. reflexivity. }
+    split; [repeat constructor; assumption|].
+    split; [rewrite !lenN_cons; lia|].
+    intros k Hk. rewrite lenN_cons in Hk.
+    destruct (N.eq_dec k 0) as [->|Hne].
+    + change (2 * 0) with 0. change (0 + 1) with 1.
+      rewrite !nthN_cons_0. rewrite (nthN_cons_pos h0) by lia. rewrite nthN_cons_0.
+      rewrite Eb2. apply blk_body_app. exact Hblk1.
+    + rewrite (nthN_cons_pos v) by lia.
+      rewrite (nthN_cons_pos h0 _ (2 * k)) by lia. rewrite (nthN_cons_pos h1) by lia.
+      rewrite (nthN_cons_pos h0 _ (2 * k + 1)) by lia. rewrite (nthN_cons_pos h1) by lia.
+      replace (2 * k - 1 - 1) with (2 * (k - 1)) by lia.
+      replace (2 * k + 1 - 1 - 1) with (2 * (k - 1) + 1) by lia.
+      apply Hblk2. lia.
+Qed.
+
+(* ---------- the padded blocks ---------- *)
+
+Lemma tab3_In Z Y X f v : In v (tab3 Z Y X f) -> exists z y x, z < Z /\ y < Y /\ x < X /\ v = f z y x.
+Proof.
+  unfold tab3. intros H. apply in_flat_map in H. destruct H as (z & Hz & H).
+  apply in_flat_map in H. destruct H as (y & Hy & H). apply in_map_iff in H.
+  destruct H as (x & <- & Hx). apply range_In in Hz, Hy, Hx. eauto 8.
+Qed.
+
+Lemma tab3_Forall (P : N -> Prop) Z Y X f :
+  (forall z y x, z < Z -> y < Y -> x < X -> P (f z y x)) -> Forall P (tab3 Z Y X f).
+Proof.
+  intros H. apply Forall_forall. intros v Hv. apply tab3_In in Hv.
+  destruct Hv as (z & y & x & Hz & Hy & Hx & ->). now apply H.
+Qed.
+
+Lemma get4_bound bound a c z y x : wf_arr bound a -> 0 < bound -> get4 a c z y x < bound.
+Proof.
+  intros [_ Hb] Hpos. unfold get4, nthN.
+  destruct (Nat.lt_ge_cases (N.to_nat (idx4 a c z y x)) (length (a_data a))) as [Hlt|Hge].
+  - rewrite Forall_forall in Hb. apply Hb. now apply nth_In.
+  - now rewrite nth_overflow.
+Qed.
+
+Lemma dt_bound_pos dt : 0 < dt_bound dt.
+Proof. destruct dt; reflexivity. Qed.
+
+Lemma block_vals_form a g c zb yb xb v :
+  block_vals a g c (zb, yb, xb) = Ok v ->
+  exists pad, v = block_padded a g c zb yb xb pad /\
+              (pad = 0 \/ In pad (block_real a g c zb yb xb)).
+Proof.
+  unfold block_vals. destruct (block_full a g zb yb xb).
+  - intros E. inversion E. exists 0. auto.
+  - destruct (most_frequent _) as [p| | | | | |] eqn:Em; try discriminate. cbn [bind].
+    intros E. inversion E. exists p. split; [reflexivity|]. right. now apply most_frequent_In.
+Qed.
+
+Lemma block_vals_bound dt a g c zyx v :
+  wf_arr (dt_bound dt) a -> block_vals a g c zyx = Ok v -> Forall (fun x => x < dt_bound dt) v.
+Proof.
+  intros Hwf E. destruct zyx as [[zb yb] xb].
+  apply block_vals_form in E. destruct E as (pad & -> & Hpad).
+  assert (Hp : pad < dt_bound dt).
+  { destruct Hpad as [->|Hin]; [apply dt_bound_pos|].
+    unfold block_real in Hin. apply tab3_In in Hin.
+    destruct Hin as (k & j & i & _ & _ & _ & ->). apply get4_bound; [exact Hwf|apply dt_bound_pos]. }
+  unfold block_padded. apply tab3_Forall. intros k j i _ _ _.
+  destruct (_ && _); [apply get4_bound; [exact Hwf|apply dt_bound_pos]|exact Hp].
+Qed.
+
+Lemma block_padded_length a g c zb yb xb pad :
+  lenN (block_padded a g c zb yb xb pad) = g_bz g * g_by g * g_bx g.
+Proof. apply tab3_length. Qed.
+
+Lemma block_padded_nth a g c zb yb xb pad k j i :
+  k < g_bz g -> j < g_by g -> i < g_bx g ->
+  zb * g_bz g + k < a_z a -> yb * g_by g + j < a_y a -> xb * g_bx g + i < a_x a ->
+  nthN (block_padded a g c zb yb xb pad) ((k * g_by g + j) * g_bx g + i) 0
+  = get4 a c (zb * g_bz g + k) (yb * g_by g + j) (xb * g_bx g + i).
+Proof.
+  intros Hk Hj Hi Hz Hy Hx. unfold block_padded. rewrite tab3_nth by assumption.
+  destruct (N.ltb_spec (zb * g_bz g + k) (a_z a)); [|lia].
+  destruct (N.ltb_spec (yb * g_by g + j) (a_y a)); [|lia].
+  destruct (N.ltb_spec (xb * g_bx g + i) (a_x a)); [|lia]. reflexivity.
+Qed.
+
+Lemma enc_blocks_vlist dt a g c cs : forall st st',
+  enc_blocks dt a g c cs st = Ok st' ->
+  exists vl, Forall2 (fun zyx v => block_vals a g c zyx = Ok v) cs vl /\
+             enc_vlist dt vl st = Ok st'.
+Proof.
+  induction cs as [|zyx r IH]; intros st st' E.
+  - cbn [enc_blocks] in E. exists []. split; [constructor|exact E].
+  - cbn [enc_blocks] in E.
+    destruct (block_vals a g c zyx) as [v| | | | | |] eqn:Ev; try discriminate. cbn [bind] in E.
+    destruct (enc_block dt v st) as [st1| | | | | |] eqn:E1; try discriminate. cbn [bind] in E.
+    destruct (IH st1 st' E) as (vl & HF & Hvl).
+    exists (v :: vl). split; [constructor; assumption|].
+    cbn [enc_vlist]. rewrite E1. exact Hvl.
+Qed.
+
+Lemma Forall2_nthN {A B} (R : A -> B -> Prop) l l' i d d' :
+  Forall2 R l l' -> i < lenN l -> R (nthN l i d) (nthN l' i d').
+Proof.
+  unfold nthN, lenN. intros H. revert i. induction H; intros i Hi; [simpl in Hi; lia|].
+  destruct (N.to_nat i) eqn:E.
+  - assumption.
+  - specialize (IHForall2 (N.of_nat n)). rewrite Nat2N.id in IHForall2. apply IHForall2.
+    simpl in Hi. lia.
+Qed.
+
+Lemma Forall2_lenN {A B} (R : A -> B -> Prop) l l' : Forall2 R l l' -> lenN l = lenN l'.
+Proof. intros H. unfold lenN. f_equal. induction H; simpl; auto. Qed.
+
+(* ---------- one channel ---------- *)
+
+Definition blk_enc (dt : dtype) (W : list N) (k : N) (vals : list N) : Prop :=
+  exists lo vo bits,
+    number_of_encoding_bits (lenN (sort_dedup vals)) = Ok bits /\
+    nthN W (2 * k) 0 = lo + bits * two24 /\ nthN W (2 * k + 1) 0 = vo /\
+    lo < two24 /\ vo < two32 /\
+    seg W lo (lut_words dt (sort_dedup vals)) /\
+    seg W vo (pack_values bits (map (fun v => index_of v (sort_dedup vals)) vals)).
+
+Lemma block_coords_length gz gy gx : lenN (block_coords gz gy gx) = gz * gy * gx.
+Proof.
+  unfold block_coords. rewrite lenN_flat_map_range with (m := gy * gx); [lia|].
+  intros z _. rewrite lenN_flat_map_range with (m := gx); [lia|].
+  intros y _. apply lenN_map_range.
+Qed.
+
+Lemma block_coords_nth gz gy gx zb yb xb d :
+  zb < gz -> yb < gy -> xb < gx ->
+  nthN (block_coords gz gy gx) (xb + gx * (yb + gy * zb)) d = (zb, yb, xb).
+Proof.
+  intros Hz Hy Hx. unfold block_coords.
+  replace (xb + gx * (yb + gy * zb)) with (zb * (gy * gx) + (yb * gx + xb)) by lia.
+  assert (Hb : yb * gx + xb < gy * gx) by nia.
+  rewrite nthN_flat_map_range; try assumption.
+  - rewrite nthN_flat_map_range; try assumption.
+    + now apply nthN_map_range.
+    + intros k _. apply lenN_map_range.
+  - intros k _. rewrite lenN_flat_map_range with (m := gx); [lia|].
+    intros y' _. apply lenN_map_range.
+Qed.
+
+Lemma stinv_init n : stinv (2 * n) (init_est n).
+Proof.
+  constructor; cbn [init_est e_len e_body e_luts].
+  - rewrite lenN_nil. lia.
+  - intros key off H. discriminate.
+Qed.
+
+Lemma encode_channel_enc dt a g c W :
+  wf_arr (dt_bound dt) a -> encode_channel dt a g c = Ok W ->
+  let gx := grid_x a g in let gy := grid_y a g in let gz := grid_z a g in
+  w32 W /\ 2 * (gx * gy * gz) <= lenN W /\
+  exists vl, Forall2 (fun zyx v => block_vals a g c zyx = Ok v) (block_coords gz gy gx) vl /\
+             forall k, k < gx * gy * gz -> blk_enc dt W k (nthN vl k []).
+Proof.
+  intros Hwf E gx gy gz. unfold encode_channel in E. fold gx gy gz in E.
+  destruct (enc_blocks dt a g c (block_coords gz gy gx) (init_est (gx * gy * gz)))
+    as [st| | | | | |] eqn:Eb; try discriminate. cbn [bind] in E. inversion E; subst W; clear E.
+  destruct (enc_blocks_vlist _ _ _ _ _ _ _ Eb) as (vl & HF & Hvl).
+  assert (Hlen : lenN vl = gx * gy * gz).
+  { rewrite <- (Forall2_lenN _ _ _ HF), block_coords_length. lia. }
+  assert (Hbound : Forall (Forall (fun v => v < dt_bound dt)) vl).
+  { apply Forall_forall. intros v Hv.
+    destruct (In_nth _ _ [] Hv) as (n & Hn & <-).
+    assert (Hn' : N.of_nat n < lenN (block_coords gz gy gx)).
+    { rewrite (Forall2_lenN _ _ _ HF). unfold lenN. lia. }
+    assert (R := Forall2_nthN _ _ _ (N.of_nat n) (0, 0, 0) [] HF Hn').
+    cbv beta in R. unfold nthN in R at 2. rewrite Nat2N.id in R.
+    eapply block_vals_bound; eauto. }
+  destruct (enc_vlist_inv dt (2 * (gx * gy * gz)) vl _ _ (stinv_init _) Hbound Hvl)
+    as (Hinv & ext & hx & Eb' & Hw & Eh & Hwh & Hlh & Hblk).
+  cbn [init_est e_body e_hdr rev app] in Eb', Eh.
+  unfold est_words. rewrite Eb', Eh.
+  split; [apply Forall_app; now split|].
+  split; [rewrite lenN_app; lia|].
+  exists vl. split; [exact HF|].
+  intros k Hk. rewrite <- Hlen in Hk.
+  destruct (Hblk k Hk) as (lo & vo & bits & B1 & B2 & B3 & B4 & B5 & B6 & B7 & B8 & B9).
+  rewrite Eb' in B8, B9.
+  exists lo, vo, bits.
+  split; [exact B1|].
+  split; [rewrite nthN_app1 by lia; exact B2|].
+  split; [rewrite nthN_app1 by lia; exact B3|].
+  split; [exact B4|]. split; [exact B5|].
+  split.
+  - replace lo with (lenN hx + (lo - 2 * (gx * gy * gz))) by lia. now apply seg_shift.
+  - replace vo with (lenN hx + (vo - 2 * (gx * gy * gz))) by lia. now apply seg_shift.
+Qed.
+
+(* ---------- the whole file ---------- *)
+
+Fixpoint offsets_from (s : N) (chans : list (list N)) : list N :=
+  match chans with
+  | [] => []
+  | w :: r => s :: offsets_from (s + lenN w) r
+  end.
+
+Lemma offsets_from_length s chans : lenN (offsets_from s chans) = lenN chans.
+Proof.
+  revert s. induction chans as [|w r IH]; intros s; [reflexivity|].
+  cbn [offsets_from]. rewrite !lenN_cons, IH. reflexivity.
+Qed.
+
+Lemma offsets_from_seg s chans c :
+  c < lenN chans ->
+  s <= nthN (offsets_from s chans) c 0 /\
+  seg (concat chans) (nthN (offsets_from s chans) c 0 - s) (nthN chans c []).
+Proof.
+  revert s c. induction chans as [|w r IH]; intros s c Hc; [rewrite lenN_nil in Hc; lia|].
+  cbn [offsets_from concat]. rewrite lenN_cons in Hc.
+  destruct (N.eq_dec c 0) as [->|Hne].
+  - rewrite !nthN_cons_0. split; [lia|]. replace (s - s) with 0 by lia.
+    replace 0 with (lenN (@nil N)) by reflexivity. change (w ++ concat r) with ([] ++ w ++ concat r).
+    apply seg_end.
+  - rewrite !nthN_cons_pos by lia.
+    destruct (IH (s + lenN w) (c - 1) ltac:(lia)) as [H1 H2]. split; [lia|].
+    replace (nthN (offsets_from (s + lenN w) r) (c - 1) 0 - s)
+      with (lenN w + (nthN (offsets_from (s + lenN w) r) (c - 1) 0 - (s + lenN w))) by lia.
+    now apply seg_shift.
+Qed.
+
+Lemma offsets_from_next s chans c :
+  c + 1 < lenN chans ->
+  nthN (offsets_from s chans) (c + 1) 0 = nthN (offsets_from s chans) c 0 + lenN (nthN chans c []).
+Proof.
+  revert s c. induction chans as [|w r IH]; intros s c Hc; [rewrite lenN_nil in Hc; lia|].
+  cbn [offsets_from]. rewrite lenN_cons in Hc.
+  destruct (N.eq_dec c 0) as [->|Hne].
+  - change (0 + 1) with 1. rewrite nthN_cons_pos by lia. rewrite !nthN_cons_0.
+    destruct r as [|w2 r2]; [unfold lenN in Hc; cbn [length] in Hc; lia|]. reflexivity.
+  - rewrite !nthN_cons_pos by lia. replace (c + 1 - 1) with (c - 1 + 1) by lia.
+    apply IH. lia.
+Qed.
+
+Lemma offsets_from_last s chans c :
+  c + 1 = lenN chans ->
+  nthN (offsets_from s chans) c 0 + lenN (nthN chans c []) = s + lenN (concat chans).
+Proof.
+  revert s c. induction chans as [|w r IH]; intros s c Hc; [rewrite lenN_nil in Hc; lia|].
+  cbn [offsets_from concat]. rewrite lenN_cons in Hc. rewrite lenN_app.
+  destruct (N.eq_dec c 0) as [->|Hne].
+  - rewrite !nthN_cons_0. destruct r as [|w2 r2]; [cbn [concat]; rewrite lenN_nil; lia|].
+    unfold lenN in Hc. cbn [length] in Hc. lia.
+  - rewrite !nthN_cons_pos by lia. rewrite IH by lia. lia.
+Qed.
+
+Lemma enc_channels_layout dt a g cs : forall off os ws,
+  enc_channels dt a g cs off = Ok (os, ws) ->
+  exists chans, Forall2 (fun c w => encode_channel dt a g c = Ok w) cs chans /\
+                os = offsets_from off chans /\ ws = concat chans /\ w32 os.
+Proof.
+  induction cs as [|c r IH]; intros off os ws E.
+  - cbn [enc_channels] in E. inversion E; subst. exists []. repeat split; constructor.
+  - cbn [enc_channels] in E.
+    destruct (N.leb_spec two32 off) as [|Hoff]; [discriminate|].
+    destruct (encode_channel dt a g c) as [w| | | | | |] eqn:Ec; try discriminate. cbn [bind] in E.
+    destruct (enc_channels dt a g r (off + lenN w)) as [[os' ws']| | | | | |] eqn:Er; try discriminate.
+    cbn [bind] in E. inversion E; subst os ws; clear E.
+    destruct (IH _ _ _ Er) as (chans & HF & -> & -> & Hw).
+    exists (w :: chans). split; [constructor; assumption|].
+    split; [reflexivity|]. split; [reflexivity|]. constructor; assumption.
+Qed.
+
+Lemma w32_concat chans : Forall w32 chans -> w32 (concat chans).
+Proof.
+  induction 1 as [|w r Hw Hr IH]; [constructor|]. cbn [concat]. apply Forall_app. now split.
+Qed.
+
+(* layout of an encoded file: channel offsets, then the channels back to back *)
+Lemma encode_words_layout dt a g W :
+  wf_arr (dt_bound dt) a -> encode_words dt a g = Ok W ->
+  exists chans,
+    W = offsets_from (a_c a) chans ++ concat chans /\ lenN chans = a_c a /\ w32 W /\
+    forall c, c < a_c a -> encode_channel dt a g c = Ok (nthN chans c []).
+Proof.
+  intros Hwf E. unfold encode_words in E.
+  destruct (enc_channels dt a g (range (a_c a)) (a_c a)) as [[os ws]| | | | | |] eqn:Ec; try discriminate.
+  cbn [bind] in E. inversion E; subst W; clear E.
+  destruct (enc_channels_layout _ _ _ _ _ _ _ Ec) as (chans & HF & -> & -> & Hw).
+  assert (Hlen : lenN chans = a_c a).
+  { rewrite <- (Forall2_lenN _ _ _ HF). apply range_length. }
+  assert (Hch : forall c, c < a_c a -> encode_channel dt a g c = Ok (nthN chans c [])).
+  { intros c Hc.
+    assert (R := Forall2_nthN _ _ _ c 0 [] HF ltac:(rewrite range_length; exact Hc)).
+    cbv beta in R. now rewrite range_nth in R. }
+  exists chans. split; [reflexivity|]. split; [exact Hlen|]. split; [|exact Hch].
+  apply Forall_app. split; [exact Hw|].
+  apply w32_concat. apply Forall_forall. intros w Hin.
+  destruct (In_nth _ _ [] Hin) as (n & Hn & <-).
+  assert (Hc : N.of_nat n < a_c a) by (rewrite <- Hlen; unfold lenN; lia).
+  specialize (Hch _ Hc). unfold nthN in Hch. rewrite Nat2N.id in Hch.
+  now destruct (encode_channel_enc dt a g _ _ Hwf Hch) as [Hw32 _].
+Qed.
+
+Lemma layout_chan C chans c :
+  lenN chans = C -> c < C ->
+  let W := offsets_from C chans ++ concat chans in
+  let off := nthN (offsets_from C chans) c 0 in
+  nthN W c 0 = off /\ seg W off (nthN chans c []).
+Proof.
+  intros Hlen Hc W off. subst W off. split.
+  - rewrite nthN_app1 by (rewrite offsets_from_length; lia). reflexivity.
+  - destruct (offsets_from_seg C chans c ltac:(lia)) as [H1 H2].
+    replace (nthN (offsets_from C chans) c 0)
+      with (lenN (offsets_from C chans) + (nthN (offsets_from C chans) c 0 - C))
+      by (rewrite offsets_from_length; lia).
+    now apply seg_shift.
 Qed.
